@@ -32,18 +32,28 @@ Definition ix : ifile :=
   mk_ifile [mk_ipack 100 [b_root] (Some 107) false; mk_ipack 101 [b_sub] (Some 117) false;
             mk_ipack 102 [b_d4; b_d3] None false] [].
 
-Definition st_clean : state N := mk_state true true [pk100 1; pk101; pk102 true] [ix] [1].
-Definition st_blob_damaged : state N := mk_state true true [pk100 1; pk101; pk102 false] [ix] [1].
+Definition st_clean : state N := mk_state true true true [pk100 1; pk101; pk102 true] [ix] [1].
+Definition st_blob_damaged : state N := mk_state true true true [pk100 1; pk101; pk102 false] [ix] [1].
 (* the root-only pack now holds (authentic) tree 5 at the place the index gives for tree 1 *)
-Definition st_root_replaced : state N := mk_state true true [pk100 5; pk101; pk102 true] [ix] [1].
+Definition st_root_replaced : state N := mk_state true true true [pk100 5; pk101; pk102 true] [ix] [1].
 (* chunk 3 is stored twice (packs 102 and 103); the copy in 103 does not decrypt *)
 Definition pk103 : spack N :=
   mk_spack 103 123 103 69 [mk_seg 50 69 (PHeader [b_d3])].
 Definition ix_dup : ifile :=
   mk_ifile (if_packs ix ++ [mk_ipack 103 [b_d3] (Some 123) false]) [].
-Definition st_dup : state N := mk_state true true [pk100 1; pk101; pk102 true; pk103] [ix_dup] [1].
+Definition st_dup : state N := mk_state true true true [pk100 1; pk101; pk102 true; pk103] [ix_dup] [1].
 Definition sel_last (t : btype) (i : id) : option (id * iblob) :=
-  match rev (candidates N st_dup t i) with [] => None | e :: _ => Some (snd (fst e), snd e) end.
+  match rev (rcandidates N st_dup t i) with [] => None | e :: _ => Some (snd (fst e), snd e) end.
+
+(* after a non-instant prune with repacking: the old pack is only MARKED (packs_to_delete); if the
+   entry of the repacked pack is lost, the marked copy must not make check clean, because restore's
+   index does not contain marked packs *)
+Definition ix_marked_only : ifile :=
+  mk_ifile [mk_ipack 100 [b_root] (Some 107) false; mk_ipack 101 [b_sub] (Some 117) false]
+           [mk_ipack 102 [b_d4; b_d3] None true].
+Definition st_marked_only : state N := mk_state true true true [pk100 1; pk101; pk102 true] [ix_marked_only] [1].
+(* an index file that lists nothing the snapshots need is unreadable *)
+Definition st_index_unreadable : state N := mk_state true false true [pk100 1; pk101; pk102 true] [ix] [1].
 
 Notation xcheck := (check N xhash xblen xparse).
 Notation xcorrect := (correct N xhash xblen xparse).
@@ -63,6 +73,14 @@ Example damaged_does_not_restore :
   readable N xblen xparse st_blob_damaged (lookup N st_blob_damaged) 5 1 = Some false.
 Proof. vm_compute. reflexivity. Qed.
 
+Example marked_copy_does_not_count :
+  xcheck st_marked_only 5 = Some [EFileBlobNotInIndex; EFileBlobNotInIndex; EFileBlobNotInIndex] /\
+  readable N xblen xparse st_marked_only (rlookup N st_marked_only) 5 1 = Some false.
+Proof. vm_compute. split; reflexivity. Qed.
+Example unreadable_index_is_reported :
+  xcheck st_index_unreadable 5 = Some [EMeta] /\ restore_opens N st_index_unreadable = false.
+Proof. vm_compute. split; reflexivity. Qed.
+
 (* root trees: their pack is in the read set (since the fix), so an authentic tree of the same
    layout put in the root's place is reported by check_pack; the walk itself still does not compare
    the hash: with the tree walk alone (no read_data) the replacement goes through *)
@@ -76,16 +94,16 @@ Proof. vm_compute. repeat split; reflexivity. Qed.
 Example duplicate_witness :
   xcheck st_dup 5 = Some [] /\ nodup_keys N st_dup = false /\
   (forall t i, match sel_last t i with
-               | Some (p, b) => In (t, p, b) (candidates N st_dup t i)
-               | None => candidates N st_dup t i = [] end) /\
+               | Some (p, b) => In (t, p, b) (rcandidates N st_dup t i)
+               | None => rcandidates N st_dup t i = [] end) /\
   readable N xblen xparse st_dup sel_last 5 1 = Some false.
 Proof.
   split; [vm_compute; reflexivity|]. split; [vm_compute; reflexivity|]. split; [|vm_compute; reflexivity].
   intros t i. unfold sel_last.
-  destruct (rev (candidates N st_dup t i)) as [|e r] eqn:E.
+  destruct (rev (rcandidates N st_dup t i)) as [|e r] eqn:E.
   - apply (f_equal (@rev _)) in E. rewrite rev_involutive in E. exact E.
-  - assert (H : In e (candidates N st_dup t i)) by (apply in_rev; rewrite E; left; reflexivity).
-    pose proof H as H'. unfold candidates in H'. apply filter_In in H'. destruct H' as [_ Hk].
+  - assert (H : In e (rcandidates N st_dup t i)) by (apply in_rev; rewrite E; left; reflexivity).
+    pose proof H as H'. unfold rcandidates in H'. apply filter_In in H'. destruct H' as [_ Hk].
     unfold key_match in Hk. apply andb_true_iff in Hk. destruct Hk as [Hk _].
     destruct e as [[t' p] b]. simpl in *. destruct t', t; try discriminate; exact H.
 Qed.
